@@ -1092,6 +1092,7 @@ pub fn run(ctx: &Ctx) -> Report {
         "timer_drains",
         "timer_multi_revolution_pending_at_drain",
         "timer_wakeup_checks",
+        "timer_reset_bursts",
         "per_ip_mixed_cluster_disable_checks",
         "result:h2_rst_stream_then_completed",
         "result:h2_dropped_with_open_streams",
